@@ -13,8 +13,9 @@
 (* that fail in a run are collected and printed when the run ends          *)
 (* (<<"VERDICT", json>>), so one TLC run decides many recorded runs.       *)
 (* Rows: {"e":"run","id":..} {"e":"tick"} {"e":"end"}                       *)
-(*  {"e":"step","t","i","a","x","flags":[..],"fin":n,"latch":b,            *)
-(*   "tag":{"k","n"}, "q":n (qfin), "finished","names","lat" (qchan)}       *)
+(*  {"e":"step","t","i","op","g","first","done","x","flags":[..],"fin":n,   *)
+(*   "latch":b,"tag":{"k","n"}, "q":n (first message of a query),          *)
+(*   "finished","names","lat" (last message of a query)}                   *)
 (*  {"e":"tagobs","tag":{"k","n"},"ino":n} status.tag as seen by a polling  *)
 (*   reader; same inode with different content = rewritten in place        *)
 (*   ("TagRenameOnly")                                                     *)
@@ -33,7 +34,7 @@ TagOf(r) == [k |-> r.k, n |-> SetOf(r.n)]
 \* the statement, evaluated on the current state; names of the parts that fail
 P_FinishedOnlyAfter == FinishedOnlyAfter
 P_QueryTruthPos == QueryTruthPos
-P_QueryTruthZero == \A i \in 1..NQ : qs[i].pc = "done" /\ qs[i].q = 0 => QueryTruthAt(0, qs[i].finished, qs[i].lat)
+P_QueryTruthZero == \A i \in 1..NQ : qs[i].pc = "done" /\ qs[i].q = 0 => QueryTruthAt(qs[i])
 P_QueryComplete == QueryComplete
 \* the subsystems named are exactly those whose last report, at the instant of the state read, was not "ready"
 P_ErrorText == \A i \in 1..NQ : qs[i].pc = "done" => qs[i].names = All \ qs[i].rep
@@ -55,7 +56,7 @@ TRun == /\ l <= Len(Rec) /\ Rec[l].e \in {"run", "end"}
         /\ flags' = {} /\ fin' = 0 /\ clock' = 1 /\ latch' = FALSE
         /\ wpc' = [w \in Writers |-> "idle"] /\ wloc' = [w \in Writers |-> LocIdle]
         /\ qs' = [i \in 1..NQ |-> QIdle]
-        /\ tmpF' = NoFile /\ tagF' = NoFile
+        /\ tmpF' = [w \in Writers |-> NoFile] /\ tagF' = NoFile
         /\ reported' = {} /\ everAllReady' = FALSE /\ timeupFired' = FALSE
         /\ allReadyAt' = 0 /\ timeupAt' = 0 /\ owed' = 0 /\ written' = {}
         /\ viol' = {} /\ runid' = IF Rec[l].e = "run" THEN Rec[l].id ELSE "-"
@@ -64,7 +65,7 @@ TRun == /\ l <= Len(Rec) /\ Rec[l].e \in {"run", "end"}
 
 TTick == /\ l <= Len(Rec) /\ Rec[l].e = "tick"
          /\ clock' = clock + 1
-         /\ Ghost(flags, clock + 1)
+         /\ Ghost(reported, clock + 1)
          /\ viol' = viol \cup Failing /\ l' = l + 1
          /\ UNCHANGED <<flags, fin, latch, wpc, wloc, kkLeft, rdLeft, latchLeft, qs, tmpF, tagF, fd, reported,
                         timeupFired, timeupAt, owed, written, last, runid, tino, tsAt>>
@@ -78,41 +79,54 @@ TObs == /\ l <= Len(Rec) /\ Rec[l].e = "tagobs"
         /\ UNCHANGED <<flags, fin, clock, latch, wpc, wloc, kkLeft, rdLeft, latchLeft, qs, tmpF, fd, reported,
                        everAllReady, timeupFired, allReadyAt, timeupAt, owed, written, last, runid, tsAt>>
 
+\* One actor message of one task.  op: the composite the task is executing (U update, R reset, T deadline, Q query),
+\* g: the gate (= actor message) it passed (upd | reset | get | setfin | getfin), first / done: first message of the
+\* composite / the composite returned after this message.  Nothing is assumed about which messages a composite
+\* sends or in which order: the ghosts follow the calls made and the reports they carry.
 TStep ==
   /\ l <= Len(Rec) /\ Rec[l].e = "step"
   /\ LET r == Rec[l]
          f2 == SetOf(r.flags)
-         inReset == KKInReset
+         isW == r.op \in {"U", "R", "T"}
+         inReset == KKInReset \/ r.op = "R"
          \* what the subsystems last reported, from the calls made (not from the implementation's flags)
-         rep2 == CASE r.a = "upd" -> reported \cup {r.x}
-                   [] r.a = "reset" -> reported \ {r.x}
+         rep2 == CASE r.g = "upd" -> reported \cup {r.x}
+                   [] r.g = "reset" -> reported \ {r.x}
                    [] OTHER -> reported
+         \* all three ready now; a completed key latch reset supersedes an earlier all-ready
+         ev2 == IF rep2 = All THEN clock
+                ELSE IF r.op = "R" /\ r.done THEN 0 ELSE allReadyAt
      IN /\ flags' = f2 /\ reported' = rep2 /\ fin' = r.fin /\ latch' = r.latch
         /\ tagF' = TagOf(r.tag)
-        /\ Ghost(rep2, clock)
-        /\ tsAt' = IF r.a = "tstate" THEN clock ELSE tsAt
-        /\ timeupFired' = (timeupFired \/ r.a = "tstate")
-        /\ timeupAt' = IF r.a = "setfin" /\ r.x = "T" THEN clock ELSE timeupAt
-        /\ owed' = CASE r.a = "reset" -> 0
-                     [] r.a = "setfin" /\ r.x = "R" -> 0
-                     [] r.a = "setfin" /\ ~inReset -> clock
+        /\ allReadyAt' = ev2 /\ everAllReady' = (everAllReady \/ rep2 = All)
+        /\ tsAt' = IF r.op = "T" /\ r.first THEN clock ELSE tsAt
+        /\ timeupFired' = (timeupFired \/ r.op = "T")
+        /\ timeupAt' = IF r.op = "T" /\ r.g = "setfin" THEN clock ELSE timeupAt
+        /\ owed' = CASE r.op = "R" -> 0
+                     [] r.op = "T" /\ r.g = "setfin" /\ ~inReset -> clock
+                     [] r.op = "U" /\ r.g = "setfin" /\ rep2 = All /\ ~inReset -> clock
                      \* the deadline handler got as far as writing the status files: the deadline has passed
-                     [] r.a = "wstate" /\ r.x = "T" /\ owed = 0 -> tsAt
+                     [] r.op = "T" /\ r.g = "get" /\ ~r.first /\ owed = 0 -> tsAt
                      [] OTHER -> owed
-        \* only the key keeper's reset bracket is tracked of the implementation's control state
-        /\ wpc' = CASE r.a = "reset" -> [wpc EXCEPT !["kk"] = "setfin"]
-                    [] r.a = "setfin" /\ r.x = "R" -> [wpc EXCEPT !["kk"] = "idle"]
-                    [] OTHER -> wpc
-        /\ wloc' = CASE r.a = "reset" -> [wloc EXCEPT !["kk"] = [op |-> "R", farg |-> FALSE, msg |-> {}]]
-                     [] r.a = "setfin" /\ r.x = "R" -> [wloc EXCEPT !["kk"] = LocIdle]
-                     [] OTHER -> wloc
+        \* of the implementation's control state only the key keeper's reset bracket is tracked
+        /\ wpc' = IF r.op = "R" THEN [wpc EXCEPT !["kk"] = IF r.done THEN "idle" ELSE "setfin"] ELSE wpc
+        /\ wloc' = IF r.op = "R"
+                   THEN [wloc EXCEPT !["kk"] = IF r.done THEN LocIdle ELSE [op |-> "R", farg |-> FALSE, msg |-> {}]]
+                   ELSE wloc
         \* a writer's complete message names the subsystems not ready when it read the state
-        /\ written' = IF r.a = "wstate" THEN written \cup {All \ f2} ELSE written
-        /\ qs' = CASE r.a = "qfin"   -> [qs EXCEPT ![r.i] = [QIdle EXCEPT !.pc = "qstate", !.q = r.q, !.owed0 = owed]]
-                   [] r.a = "qstate" -> [qs EXCEPT ![r.i].pc = "qchan", ![r.i].fl = f2, ![r.i].rep = rep2]
-                   [] r.a = "qchan"  -> [qs EXCEPT ![r.i].pc = "done", ![r.i].finished = r.finished,
-                                                   ![r.i].names = SetOf(r.names), ![r.i].lat = r.lat]
-                   [] OTHER -> qs
+        /\ written' = IF isW /\ r.g = "get" /\ ~(r.op = "T" /\ r.first) THEN written \cup {All \ f2} ELSE written
+        /\ qs' = IF r.op # "Q" THEN qs
+                 ELSE LET q1 == IF r.first
+                                THEN [QIdle EXCEPT !.pc = "qstate", !.q = r.q, !.owed0 = owed, !.ev = allReadyAt,
+                                                   !.inR0 = KKInReset]
+                                ELSE qs[r.i]
+                          q2 == IF r.g = "get" THEN [q1 EXCEPT !.fl = f2, !.rep = rep2, !.ev = Max(q1.ev, ev2)]
+                                ELSE [q1 EXCEPT !.ev = Max(q1.ev, ev2)]
+                          q3 == IF r.done
+                                THEN [q2 EXCEPT !.pc = "done", !.finished = r.finished, !.names = SetOf(r.names),
+                                                !.lat = r.lat, !.tu = timeupAt]
+                                ELSE q2
+                      IN [qs EXCEPT ![r.i] = q3]
   /\ viol' = viol \cup Failing /\ l' = l + 1
   /\ UNCHANGED <<clock, kkLeft, rdLeft, latchLeft, tmpF, fd, last, runid, tino>>
 
